@@ -88,25 +88,35 @@ pub enum Delivery {
     EscapedStr,
     /// as above through `from_reader(SimReader)`
     EscapedReader,
+    /// `Deserialize::deserialize_in_place` from a `&str` deserializer into a slot (or a `Vec`
+    /// whose elements, or an `Option`) that already holds another value
+    InPlaceStr,
+    /// the same from `from_reader(SimReader)`
+    InPlaceReader,
 }
 
-pub const ALL_DELIVERIES: [Delivery; 9] = [
+pub const ALL_DELIVERIES: [Delivery; 8] = [
     Delivery::Reader,
     Delivery::BufReader(7),
     Delivery::Str,
     Delivery::Value,
-    Delivery::DeStr,
-    Delivery::DeString,
-    Delivery::DeBorrowed,
     Delivery::EscapedStr,
     Delivery::EscapedReader,
+    Delivery::InPlaceStr,
+    Delivery::InPlaceReader,
 ];
+// `DeStr`, `DeString` and `DeBorrowed` (serde::de::value's string deserializers) are no longer
+// used: they forward every hint to `visit_str`, so a derived newtype or an `Option` fails under
+// them although every real format honours the hint - a false alarm found by review (DESIGN 7.8).
+// The three string delivery modes they stood for are covered by `from_str` (borrowed),
+// reader / escaped input (transient) and `from_value` / `Content` buffering (owned).  The
+// variants stay so that old replay files still load; they are never applicable.
 
 impl Delivery {
     pub fn uses_reader(&self) -> bool {
         matches!(
             self,
-            Delivery::Reader | Delivery::BufReader(_) | Delivery::EscapedReader
+            Delivery::Reader | Delivery::BufReader(_) | Delivery::EscapedReader | Delivery::InPlaceReader
         )
     }
     pub fn name(&self) -> &'static str {
@@ -120,6 +130,8 @@ impl Delivery {
             Delivery::DeBorrowed => "BorrowedStrDeserializer",
             Delivery::EscapedStr => "escaped+from_str",
             Delivery::EscapedReader => "escaped+from_reader",
+            Delivery::InPlaceStr => "deserialize_in_place(from_str)",
+            Delivery::InPlaceReader => "deserialize_in_place(from_reader)",
         }
     }
     pub fn index(&self) -> usize {
@@ -133,6 +145,8 @@ impl Delivery {
             Delivery::DeBorrowed => 6,
             Delivery::EscapedStr => 7,
             Delivery::EscapedReader => 8,
+            Delivery::InPlaceStr => 9,
+            Delivery::InPlaceReader => 10,
         }
     }
 }
@@ -414,7 +428,7 @@ impl FaultCfg {
         }
         // re-entrant operations live in runs of their own (one in eight): whatever such a run
         // observes after a re-entry is advisory, so they must not dilute the ordinary runs
-        if rng.below(8) == 0 {
+        if rng.below(8) == 0 && !crate::stubs::NO_REENTER.load(std::sync::atomic::Ordering::Relaxed) {
             c.w_reenter = *rng.pick(&[20u32, 60, 120]);
             c.r_reenter = *rng.pick(&[20u32, 60]);
             c.f_reenter = *rng.pick(&[20u32, 60, 120]);
